@@ -97,6 +97,9 @@ def main():
     from labella.scale import LinearScale, TimeScale
     from labella.timeline import TimelineSVG, TimelineTex
 
+    from vmon.budget import ensure_tick_budget
+
+    ensure_tick_budget()
     L = Log()
     approx = {"second": 1, "minute": 60, "hour": 3600, "day": 86400, "week": 7 * 86400, "month": 30 * 86400, "year": 365 * 86400}
     for _ in range(spec["n"]):
